@@ -1513,3 +1513,39 @@ func ManyTokens(r *rand.Rand) *spec.Grammar {
 	g.DefaultActs()
 	return g
 }
+
+// Dense produces a conflict-free grammar whose table is dense rather than big:
+// M keyword-introduced lists over the same N item tokens,
+//
+//	S : K1 A1 | ... | KM AM ;  Ai : Ai item | item ;  item : T1 | ... | TN
+//
+// About 3M+N states with N+1 occupied cells in most rows: with M, N around 50 the
+// packed action vector of the generated parser is one source line of more than 64 KiB.
+func Dense(r *rand.Rand) *spec.Grammar {
+	g := &spec.Grammar{}
+	m := 48 + r.Intn(10)
+	n := 48 + r.Intn(10)
+	for i := 0; i < m; i++ {
+		g.Tokens = append(g.Tokens, spec.Token{Name: fmt.Sprintf("K%02d", i), Decl: "token"})
+	}
+	for i := 0; i < n; i++ {
+		g.Tokens = append(g.Tokens, spec.Token{Name: fmt.Sprintf("T%02d", i), Decl: "token", Tag: "s"})
+	}
+	g.NTs = []spec.NT{{Name: "S", Tag: "s"}, {Name: "item", Tag: "s"}}
+	for i := 0; i < m; i++ {
+		g.NTs = append(g.NTs, spec.NT{Name: fmt.Sprintf("A%02d", i), Tag: "s"})
+	}
+	for i := 0; i < m; i++ {
+		g.Rules = append(g.Rules, spec.Rule{Lhs: 0, Rhs: []spec.Sym{{T: true, I: i}, {I: 2 + i}}, Prec: -1})
+	}
+	for i := 0; i < m; i++ {
+		g.Rules = append(g.Rules, spec.Rule{Lhs: 2 + i, Rhs: []spec.Sym{{I: 2 + i}, {I: 1}}, Prec: -1},
+			spec.Rule{Lhs: 2 + i, Rhs: []spec.Sym{{I: 1}}, Prec: -1})
+	}
+	for i := 0; i < n; i++ {
+		g.Rules = append(g.Rules, spec.Rule{Lhs: 1, Rhs: []spec.Sym{{T: true, I: m + i}}, Prec: -1})
+	}
+	g.Start = 0
+	g.DefaultActs()
+	return g
+}
